@@ -162,6 +162,157 @@ def softmax_row(v):
     return e / e.sum()
 
 
+# ----------------------------------------------------------------- a fitted model whose temperature is changed afterwards
+HOW_RETEMPER = ("m = harness.douglas_lib.build(K, n_cuts, mask, T_fit, X_fit); douglas_lib.overwrite(m, cut_points_list, leaf_scores); "
+                "m.set_params(temperature=T_now)  or  m.temperature = T_now; m.predict_proba(X) / m.predict(X) / m.find_active_points(X)  vs  "
+                "props.c15.forward_reference(X, cut_points_list, leaf_scores, T_now)")
+
+
+def forward_reference(X, cl, S, T):
+    """the documented forward pass from the published parameters and ONE temperature: along a used feature, every cut point s adds
+    (x - s)/T to the log-weight of all bins above it (so the weight moves to the bin `number of cut points below x` as T -> 0); the
+    leaves are the grid of the per-feature bins (first entry of cut_points_list_ = most significant digit); prediction = soft-max of
+    the membership-weighted leaf scores.  Returns (proba, per-feature bins, leaf memberships)."""
+    X = np.asarray(X, dtype=float)
+    n = X.shape[0]
+    bins = []
+    leaf = np.ones((n, 1))
+    for f, v in cl:
+        s = np.sort(np.asarray(v, dtype=float))
+        z = np.concatenate([np.zeros((n, 1)), np.cumsum(X[:, [f]] - s[None, :], axis=1)], axis=1) / T
+        z = z - z.max(1, keepdims=True)
+        e = np.exp(z)
+        b = e / e.sum(1, keepdims=True)
+        bins.append(b)
+        leaf = (leaf[:, :, None] * b[:, None, :]).reshape(n, -1)
+    y = leaf @ np.asarray(S, dtype=float)
+    y = y - y.max(1, keepdims=True)
+    e = np.exp(y)
+    return e / e.sum(1, keepdims=True), bins, leaf
+
+
+def forward_tolerance(X, cl, S, T):
+    """rounding allowance of a float64 forward pass: the log-weights (size ~ (n_cuts+1)(|x|+|s|)) are divided by T before exp"""
+    c = max(len(v) for _, v in cl)
+    mag = max([float(np.max(np.abs(X[:, f]))) + float(np.max(np.abs(v))) for f, v in cl] + [1.0])
+    return 1e-9 + 1e-13 * (c + 1) * mag * len(cl) * max(1.0, float(np.max(np.abs(S)))) / T
+
+
+def retemper_temperatures(rs2, T_fit, only_tiny=False):
+    tiny = [t for t in (1e-3, 1e-4, 1e-5) if abs(t - T_fit) > 1e-12 * t]
+    out = [("tiny", float(tiny[rs2.randint(len(tiny))]))]
+    if not only_tiny:
+        out = [("larger", float(T_fit * rs2.choice([2.0, 10.0, 100.0]))),
+               ("smaller", float(max(T_fit / rs2.choice([2.0, 10.0, 100.0]), 1e-5)))] + out
+    return out
+
+
+def retemper(ctx, m, X, T_fit, rs2, family, desc, ask=None, only_tiny=False, fresh=True):
+    """change the temperature of the FITTED model `m` (set_params or plain attribute assignment) to a larger, a smaller and a very small
+    value; after each change the model must follow (cut_points_list_, leaf_scores_, temperature) as they read NOW:
+      * memberships / predictions are probability vectors (statement: `for every temperature`);
+      * predict_proba == forward_reference(published parameters, current temperature), predict == its arg-max where that is clear,
+        and == the prediction of a second model FITTED at that temperature carrying the same published parameters;
+      * very small temperature: rows >= 0.05 away from every cut point get soft-max(leaf_scores_[cell]), cell = mixed-radix number
+        of the per-feature counts of cut points below the value (the limit clause of the statement, same margins as family B);
+      * find_active_points does not depend on the temperature.
+    The temperature is put back to T_fit at the end."""
+    cl = [(int(f), np.array(cp, dtype=float)) for f, cp in m.cut_points_list_]
+    S = np.array(m.leaf_scores_, dtype=float)
+    n = X.shape[0]
+    c = len(cl[0][1])
+    base = {**desc, "T_fit": T_fit, "X": X.tolist(), "cut_points_list": [[f, v.tolist()] for f, v in cl], "leaf_scores": S.tolist()}
+    spec_act = dl.spec_active(X, cl)
+    gaps = np.min([np.abs(X[:, f][:, None] - v[None, :]).min(1) for f, v in cl], axis=0)        # per row, over the used features
+    cell_idx = np.zeros(n, dtype=int)
+    for f, v in cl:
+        cell_idx = cell_idx * (c + 1) + np.array([dl.cell_of(X[r, f], v) for r in range(n)])
+    for label, T2 in retemper_temperatures(rs2, T_fit, only_tiny):
+        how_set = "set_params" if rs2.rand() < 0.5 else "attribute"
+        if how_set == "set_params":
+            m.set_params(temperature=T2)
+        else:
+            m.temperature = T2
+        inp = {**base, "T_now": T2, "changed_by": how_set}
+        ctx.count(f"retemper:{family}:{label}")
+        ctx.count(f"retemper:by:{how_set}")
+        try:
+            P = np.asarray(m.predict_proba(X))
+            lab = np.asarray(m.predict(X))
+            m._infer(X)
+            leaf = np.array(m._leaf)
+            act = [int(v) for v in m.find_active_points(X)]
+        except Exception as e:
+            ctx.case(("retemper-raise", family, T_fit, T2, X.tobytes()), False, None)
+            ctx.violation(f"after changing the temperature of a fitted model from {T_fit} to {T2} ({how_set}) prediction raised "
+                          f"{type(e).__name__}: {e}", "retemper", inp, key=f"retemper:raise:{type(e).__name__}", how=HOW_RETEMPER)
+            continue
+        Pref, _, leaf_ref = forward_reference(X, cl, S, T2)
+        tol = forward_tolerance(X, cl, S, T2)
+        ctx.case(("retemper", family, T_fit, T2, how_set, X.tobytes(), repr(base["cut_points_list"]), S.tobytes()),
+                 len({Pref[i].tobytes() for i in range(n)}) >= 2,
+                 {**desc, "T_fit": T_fit, "T_now": T2, "changed_by": how_set, "proba_row0": P[0].round(6).tolist()})
+        if not (P.shape == Pref.shape and np.all(np.isfinite(P)) and np.all(P >= 0) and np.all(np.abs(P.sum(1) - 1) <= 1e-12)
+                and np.all(np.isfinite(leaf)) and np.all(leaf >= 0) and np.all(np.abs(leaf.sum(1) - 1) <= 1e-12)):
+            ctx.violation(f"after changing the temperature of a fitted model from {T_fit} to {T2} ({how_set}) the leaf memberships / "
+                          f"predictions are not probability vectors", "retemper", inp, actual=P.tolist(), key="retemper:not-prob", how=HOW_RETEMPER)
+            continue
+        err = float(np.abs(P - Pref).max())
+        if err > tol or leaf.shape != leaf_ref.shape or float(np.abs(leaf - leaf_ref).max()) > tol:
+            bad = int((np.abs(P - Pref).max(1) > tol).sum())
+            ctx.violation(f"fitted at temperature {T_fit}, temperature then changed to {T2} ({how_set}): predict_proba differs from the forward "
+                          f"pass of (cut_points_list_, leaf_scores_, temperature={T2}) on {bad}/{n} rows (max difference {err:.3g}, allowance {tol:.3g})",
+                          "retemper", inp, expected=Pref.tolist(), actual=P.tolist(), key=f"retemper:forward:{label}", how=HOW_RETEMPER)
+        srt = np.sort(Pref, axis=1)
+        clear = np.ones(n, dtype=bool) if Pref.shape[1] < 2 else (srt[:, -1] - srt[:, -2]) > 1e-6 + 2 * tol
+        ctx.count("retemper:predict_rows", int(clear.sum()))
+        if lab.shape != (n,) or np.any(lab[clear] != np.argmax(Pref, axis=1)[clear]):
+            ctx.violation(f"fitted at temperature {T_fit}, temperature then changed to {T2} ({how_set}): predict returns {lab.tolist()}, the forward "
+                          f"pass of the published parameters at the current temperature gives {np.argmax(Pref, axis=1).tolist()} (rows with a "
+                          f"clear winner: {np.nonzero(clear)[0].tolist()})", "retemper", inp, expected=np.argmax(Pref, axis=1).tolist(),
+                          actual=lab.tolist(), key=f"retemper:predict:{label}", how=HOW_RETEMPER)
+        if act != spec_act:
+            ctx.violation(f"after changing the temperature from {T_fit} to {T2} find_active_points returned {act}; the features with a cut point "
+                          f"strictly inside the range of the data are {spec_act}", "retemper", inp, expected=spec_act, actual=act,
+                          key="retemper:active", how=HOW_RETEMPER)
+        if label == "tiny":
+            # the limit clause, judged without the reference: only the cell counts and the score rows
+            rows = [r for r in range(n) if gaps[r] >= 0.05]
+            ctx.count("retemper:limit_rows", len(rows))
+            wrong = [r for r in rows if not np.allclose(P[r], softmax_row(S[cell_idx[r]]), rtol=0, atol=1e-9)]
+            if wrong:
+                r = wrong[0]
+                ctx.violation(f"fitted at temperature {T_fit}, temperature then lowered to {T2} ({how_set}): {len(wrong)}/{len(rows)} rows lying >= 0.05 "
+                              f"away from every cut point are not predicted as soft-max(leaf_scores_[cell]); row {r}: cell {int(cell_idx[r])} "
+                              f"(cut points below per used feature: {[dl.cell_of(X[r, f], v) for f, v in cl]}), got {P[r].tolist()}, expected "
+                              f"{softmax_row(S[cell_idx[r]]).tolist()}", "retemper", {**inp, "row": r}, expected=softmax_row(S[cell_idx[r]]).tolist(),
+                              actual=P[r].tolist(), key="retemper:limit", how=HOW_RETEMPER)
+        if fresh:
+            # a second model fitted AT the new temperature and given the same published parameters is the same predictor
+            try:
+                m2 = dl.build(int(m.n_clusters), c, m.feature_mask, T2, X if n >= m.n_clusters else np.vstack([X] * int(m.n_clusters)), 0)
+            except Exception as e:
+                ctx.count(f"retemper:fresh_fit_failed:{type(e).__name__}")
+                m2 = None
+            if m2 is not None:
+                dl.overwrite(m2, cl, S)
+                P2 = np.asarray(m2.predict_proba(X))
+                ctx.count("retemper:fresh_twin")
+                if not (P2.shape == P.shape and float(np.abs(P2 - P).max()) <= tol):
+                    ctx.violation(f"two models with the same cut_points_list_, leaf_scores_ and temperature {T2} predict differently: one was fitted "
+                                  f"at {T_fit} and had its temperature changed ({how_set}), the other was fitted at {T2} (max difference "
+                                  f"{float(np.abs(P2 - P).max()):.3g})", "retemper", inp, expected=P2.tolist(), actual=P.tolist(),
+                                  key=f"retemper:fresh-twin:{label}", how=HOW_RETEMPER)
+        if ask is not None:
+            def h_re(ans, P=P, inp=inp):
+                ctx.compared("infer_retempered")
+                v = dl.parse_floats(ans)
+                if v is None or not core.close_vec(list(P.ravel()), v, rtol=RTOL, atol=1e-15):
+                    ctx.corr_break("infer_retempered", inp, {"impl": P.tolist(), "model": v})
+            ask(dl.line_infer(T2, X, cl, S), h_re)
+    m.set_params(temperature=T_fit)
+
+
 # ----------------------------------------------------------------- checks shared with replay
 def judge_active(ctx, m, Xa, cl, kind, model_ans, failures):
     """find_active_points on the real object: correspondence (activeFixed first, then activeCurrent) and oracle"""
@@ -209,7 +360,10 @@ def run(ctx):
                 "masks None/random/single/all-true, K in 1..4, n in 2..6, temperatures 1e-4..1e2, data normal/grid/x100/constant column, cut vectors "
                 "normal/sorted/reversed/duplicated/grid/wide/equal to data values; low-temperature family (T=1e-3,1e-4, points >= 0.05 from every cut, "
                 "twins in the same cell); find_active_points on random and adversarial data (no cut inside the range incl. data between two cuts, one "
-                "inside, cut equal to min/max, constant column).  non-trivial: infer case with >= 2 distinct prediction rows; active case with "
+                "inside, cut equal to min/max, constant column); every fitted model of the general / low-temperature family then has its temperature "
+                "CHANGED (set_params or attribute assignment; x2..x100, /2../100, and 1e-3/1e-4/1e-5) and is judged against the forward pass of the "
+                "published parameters at the current temperature, the limit clause, a model fitted at the new temperature, find_active_points; half "
+                "of the find_active_points models get another temperature after fit.  non-trivial: infer case with >= 2 distinct prediction rows; active case with "
                 ">= 2 cuts on a feature or a strict subset of features active.  distinct = hash of (unit, X, parameters)")
     regen(ctx)              # Gen/Douglas.lean follows the current source before the theorems (C15 + companion C15Gen) are re-checked
     ctx.do_prove()
@@ -218,6 +372,7 @@ def run(ctx):
     n_low = 25 if quick else 800
     n_act = 90 if quick else 3000
     rs = np.random.RandomState(ctx.seed * PRIME + 15)
+    rs2 = np.random.RandomState(ctx.seed * PRIME + 1015)     # choices of the temperature changes only (family A/B/C inputs stay as they were)
     lines, handlers = [], []
     active_failures, active_cases = [], []
 
@@ -249,6 +404,9 @@ def run(ctx):
             if dl.parse_init(ans) != (got_used, shape0):
                 ctx.corr_break("init_params", desc, {"model": ans, "impl": [got_used, shape0]})
         ask(dl.line_init(d, c, None if mask is None else mask.tolist()), h_init)
+        # -- the parameters fit has learnt, read at a very small temperature set on the fitted model (limit clause)
+        if got_used == used and m.leaf_scores_.shape == (L, K):
+            retemper(ctx, m, X, T, rs2, "A-learnt", desc, only_tiny=True, fresh=False)
         # -- overwrite parameters
         cl, cregs = [], []
         for f in used:
@@ -387,6 +545,8 @@ def run(ctx):
                     ctx.compared("argmax_any_T")
                     if int(np.argmax(binn[i][r])) != dl.cell_of(X[r, f], v):
                         ctx.corr_break("argmax_any_T", {**inp, "row": r, "feature": f}, {"argmax": int(np.argmax(binn[i][r])), "cuts_below": dl.cell_of(X[r, f], v)})
+        # -- the temperature of the fitted model is changed: it must follow the published parameters at the CURRENT temperature
+        retemper(ctx, m, X, T, rs2, "A", desc, ask=ask)
 
     # ---------------------------------------------------------------- B. low temperature family
     for rep in range(n_low):
@@ -468,6 +628,8 @@ def run(ctx):
             if v is None or not core.close_vec(list(P.ravel()), v, rtol=RTOL, atol=1e-15):
                 ctx.corr_break("infer", inp, {"impl": P.tolist(), "model": v})
         ask(dl.line_infer(T, X, cl, S), h_low)
+        # -- fitted cold, then warmed / cooled further on the fitted model
+        retemper(ctx, m, X, T, rs2, "B", {"d": d, "n_cuts": c, "mask": None if mask is None else mask.tolist(), "K": K}, ask=ask)
 
     # ---------------------------------------------------------------- C. find_active_points
     for rep in range(n_act):
@@ -484,6 +646,13 @@ def run(ctx):
         kind = ACTIVE_KINDS[rep % len(ACTIVE_KINDS)]
         na = int(rs.randint(1, 7))
         Xa = adversarial_data(rs, kind, na, d, cl) if kind != "random" else gen_data(rs, na, d)[1]
+        if rep % 2 == 1:        # find_active_points reads the cut points only: a temperature changed after fit must not matter
+            T_now = float(rs2.choice(TEMPS + [1e-5]))
+            if rs2.rand() < 0.5:
+                m.set_params(temperature=T_now)
+            else:
+                m.temperature = T_now
+            ctx.count("active:temperature_changed_after_fit")
         active_cases.append((len(lines), m, Xa, cl, kind))
         ask(dl.line_active(Xa, cl), None)
     # rejected inputs of find_active_points / _init_params: the model rejects them too
@@ -544,6 +713,30 @@ def replay(ctx, path):
     """re-run the failing input of a replay file on the real implementation"""
     rep = json.load(open(path))
     inp = rep.get("input") or {}
+    if rep.get("unit") == "retemper" and "cut_points_list" in inp and "T_now" in inp:
+        X = np.array(inp["X"], dtype=float)
+        cl = [(int(f), np.array(c, dtype=float)) for f, c in inp["cut_points_list"]]
+        S = np.array(inp["leaf_scores"], dtype=float)
+        K = S.shape[1]
+        mask = None if inp.get("mask") is None else np.array(inp["mask"], dtype=bool)
+        m = dl.build(K, len(cl[0][1]), mask, float(inp["T_fit"]), X if len(X) >= K else np.vstack([X] * K), 0)
+        dl.overwrite(m, cl, S)
+        if inp.get("changed_by") == "attribute":
+            m.temperature = float(inp["T_now"])
+        else:
+            m.set_params(temperature=float(inp["T_now"]))
+        P = np.asarray(m.predict_proba(X))
+        Pref = forward_reference(X, cl, S, float(inp["T_now"]))[0]
+        tol = forward_tolerance(X, cl, S, float(inp["T_now"]))
+        err = float(np.abs(P - Pref).max())
+        print(f"fitted at T={inp['T_fit']}, temperature changed to {inp['T_now']} ({inp.get('changed_by')}): max |predict_proba - forward pass of the "
+              f"published parameters at the current temperature| = {err:.3g} (allowance {tol:.3g}); find_active_points -> "
+              f"{[int(v) for v in m.find_active_points(X)]}, specification -> {dl.spec_active(X, cl)}")
+        if err > tol or [int(v) for v in m.find_active_points(X)] != dl.spec_active(X, cl):
+            print("REPRODUCED retemper")
+            return 1
+        print("replay: the property holds on this input now")
+        return 0
     if rep.get("unit") != "find_active_points" or "cut_points_list" not in inp:
         print(f"replay {path}: unit {rep.get('unit')!r} — re-run with `{rep.get('how_to_run')}` on the stored input")
         return 2
